@@ -8,6 +8,7 @@ N1  ``return next((e for x in D if c), default)``           ->  ``for x in D: if
 N2  a list comprehension that calls a helper which must be run in place (a private helper or local closure with
     statement effects / loops)                              ->  the accumulator loop it abbreviates
 N4  ``for x in X: acc.append(x)``                               ->  ``acc.extend(X)``
+N6  ``for i, y in enumerate(<generator>): body``                 ->  ``cnt = 0; for y in <generator>: i = cnt; cnt += 1; body``
 N5  ``for y in (f(x) for x in D if c): body``                    ->  ``for x in D: if c: y = f(x); body``
 N3  a call of such a helper in expression position          ->  hoisted into ``tmp = helper(...)`` right before the statement
                                                                 (the path enumerator then runs the helper's body in place)
@@ -145,6 +146,9 @@ class _Ctx:
             new.orelse = self.block(st.orelse)
             return pre + [new]
         if isinstance(st, ast.For):
+            counted = self._enumerate_loop(st)
+            if counted is not None:
+                return self.block(counted)
             mapped = self._mapped_loop(st)
             if mapped is not None:
                 return self.stmt(mapped)
@@ -226,6 +230,34 @@ class _Ctx:
         params = {a.arg for a in ast.walk(self.root) if isinstance(a, ast.arg)}
         return bool(binds) and name not in params and all(isinstance(b.value, (ast.List, ast.ListComp)) for b in binds)
 
+    # -- N6 -------------------------------------------------------------------------------------------
+    def _enumerate_loop(self, st: ast.For) -> Optional[List[ast.stmt]]:
+        """``for i, x in enumerate(G): body`` over a *filtered/mapped generator* G  ->  ``cnt = 0; for x in G: i = cnt; cnt += 1; body``
+        (the position in a filtered stream is a counter of the elements that pass the filter)"""
+        it = st.iter
+        if not (isinstance(it, ast.Call) and isinstance(it.func, ast.Name) and it.func.id == "enumerate" and len(it.args) == 1 and not it.keywords):
+            return None
+        if not (isinstance(st.target, ast.Tuple) and len(st.target.elts) == 2 and isinstance(st.target.elts[0], ast.Name)) or st.orelse:
+            return None
+        src = it.args[0]
+        gen = src
+        if isinstance(src, ast.Name) and self.root is not None:
+            binds = [n for n in ast.walk(self.root) if isinstance(n, (ast.Assign, ast.AnnAssign)) and
+                     any(isinstance(t, ast.Name) and t.id == src.id for t in (n.targets if isinstance(n, ast.Assign) else [n.target]))]
+            if len(binds) == 1:
+                gen = binds[0].value
+        if not isinstance(gen, ast.GeneratorExp):
+            return None   # plain enumerate over a sequence is read as it is
+        cnt = self.tmp()
+        init = ast.Assign(targets=[ast.Name(id=cnt, ctx=ast.Store())], value=ast.Constant(value=0))
+        take = ast.Assign(targets=[ast.Name(id=st.target.elts[0].id, ctx=ast.Store())], value=ast.Name(id=cnt, ctx=ast.Load()))
+        step = ast.AugAssign(target=ast.Name(id=cnt, ctx=ast.Store()), op=ast.Add(), value=ast.Constant(value=1))
+        loop = ast.For(target=st.target.elts[1], iter=src, body=[take, step] + list(st.body), orelse=[])
+        for n in (init, take, step, loop):
+            ast.copy_location(n, st)
+            ast.fix_missing_locations(n)
+        return [init, loop]
+
     # -- N5 -------------------------------------------------------------------------------------------
     def _mapped_loop(self, st: ast.For) -> Optional[ast.For]:
         """``for y in (f(x) for x in D if c): body``  ->  ``for x in D: if c: y = f(x); body`` (also through a local name that is bound once to
@@ -242,10 +274,12 @@ class _Ctx:
         if any(isinstance(n, (ast.Break,)) for n in ast.walk(st)) and it.generators[0].ifs:
             pass
         g = it.generators[0]
-        if {n.id for n in ast.walk(g.target) if isinstance(n, ast.Name)} & {n.id for n in ast.walk(st.target) if isinstance(n, ast.Name)}:
+        same = isinstance(g.target, ast.Name) and isinstance(st.target, ast.Name) and isinstance(it.elt, ast.Name) \
+            and g.target.id == st.target.id == it.elt.id
+        if not same and {n.id for n in ast.walk(g.target) if isinstance(n, ast.Name)} & {n.id for n in ast.walk(st.target) if isinstance(n, ast.Name)}:
             return None
         bind = ast.Assign(targets=[st.target], value=it.elt)
-        body: List[ast.stmt] = [bind] + list(st.body)
+        body: List[ast.stmt] = ([] if same else [bind]) + list(st.body)
         for c in reversed(g.ifs):
             body = [ast.If(test=c, body=body, orelse=[])]
         new = ast.For(target=g.target, iter=g.iter, body=body, orelse=[])
